@@ -4,6 +4,7 @@ import (
 	"flag"
 	"fmt"
 	"os"
+	"runtime"
 	"sort"
 	"strings"
 	"testing"
@@ -61,6 +62,12 @@ func runSweep(t *testing.T) {
 		return true
 	}
 	for time.Now().Before(deadline) && failIn == nil {
+		var ms runtime.MemStats
+		runtime.ReadMemStats(&ms)
+		if ms.HeapInuse > 400<<20 {
+			out.Counters["worker.recycled-for-memory"]++
+			break
+		}
 		rseed := deriveSeed(*fSeed, *fWorker, batch, 99)
 		_ = flag.Set("rapid.seed", fmt.Sprint(rseed))
 		var base *Input
@@ -80,7 +87,8 @@ func runSweep(t *testing.T) {
 			base.Gens = append(base.Gens, base.Gens[0])
 		}
 		res := Run(t, base, prop, false)
-		if !account(res, base) {
+		ok := account(res, base)
+		if !ok {
 			break
 		}
 		// length of the first generation in steps
@@ -91,12 +99,15 @@ func runSweep(t *testing.T) {
 			}
 		}
 		out.Counters["sweep.schedules"]++
+		res.Release()
 		for k := 1; k <= S && time.Now().Before(deadline); k++ {
 			in := *base
 			in.Faults = []Fault{{Kind: "crash", Step: k}}
 			r := Run(t, &in, prop, false)
 			out.Counters["sweep.crash-steps"]++
-			if !account(r, &in) {
+			ok := account(r, &in)
+			r.Release()
+			if !ok {
 				break
 			}
 		}
